@@ -44,9 +44,9 @@ Qed.
 Lemma sx_blocks_ok : Forall (pm_ok2 sx_file c8_okfn) c8_ms.
 Proof.
   unfold c8_ms. constructor; [|constructor; [|constructor]]; intros st E; vm_compute in E; inversion E; subst st; (split; [|apply Forall_nil]); cbn [All st_stmts sstmt svar mexpr mattr fexpr is_capture sx_cap c8_va].
-  - split; [exact I|]. split; [split; [left; exact I|split; [|exact I]]; right; split; [right; split; [exact I|reflexivity]|reflexivity]|].
-    split; [|exact I]. split; [left; exact I|]. right. split; [exact I|reflexivity].
-  - split; [split; [exact I|reflexivity]|]. split; [|exact I]. split; [right; split; [exact I|reflexivity]|]. split; [|exact I]. left. split; [reflexivity|]. repeat split.
+  - split; [exact I|]. split; [split; [left; exact I|split; [|exact I]]; right; split; [right; left; reflexivity|reflexivity]|].
+    split; [|exact I]. split; [left; exact I|]. right. left. reflexivity.
+  - split; [split; [exact I|reflexivity]|]. split; [|exact I]. split; [right; left; reflexivity|]. split; [|exact I]. left. split; [reflexivity|]. repeat split.
 Qed.
 Lemma sx_closed : gclosed (N.of_nat (length (@nil gnode))) []. Proof. constructor. Qed.
 Lemma sx_run_state : exists ls p, run_lazy k7_tree sx_file config0 [[]] None ([] : list regex) rx_captures c8_call default_fuel c8_ms [] = Ok (ls, p) /\ l_graph ls = sx_g.
